@@ -90,8 +90,10 @@ def judge(ck, v, src, r, bash_pair, counts):
         if r.get("orig_print_error"):
             # the tree does not print and re-parse before Simplify either: the printer's defect, not Simplify's
             import re
-            ck.violation("printer: the tree does not print and re-parse even before Simplify: " +
-                         re.sub(r"^\d+:\d+: ", "", r["orig_print_error"])[:80], dict(rec, text=r.get("text")))
+            why0 = re.sub(r"^\d+:\d+: ", "", r["orig_print_error"])[:80]
+            if "- -" in src and "--" in (r.get("text") or ""):
+                why0 = "`- -x` is printed as `--x`"
+            ck.violation("printer: the tree does not print and re-parse even before Simplify: " + why0, dict(rec, text=r.get("text")))
         elif dev_tree:      # the tree that does not print is the deviation's tree, not the contract's
             for d in trig:
                 ck.violation(d, dict(rec, text=r.get("text"), error=why))
